@@ -627,7 +627,13 @@ class Block:
     def successors(self):
         """Get the direct successors of this block"""
         if self.last_instruction:
-            return self.last_instruction.targets
+            # Both targets of a conditional jump can be the same block,
+            # list each successor once:
+            successors = []
+            for target in self.last_instruction.targets:
+                if target not in successors:
+                    successors.append(target)
+            return successors
         else:
             return []
 
@@ -1315,7 +1321,10 @@ class JumpBase(FinalInstruction):
         """Clear references"""
         while self._block_map:
             _, block = self._block_map.popitem()
-            block.references.remove(self)
+            # Both targets of a conditional jump can be the same block:
+            if block not in self._block_map.values():
+                block.references.remove(self)
+        super().delete()
 
     @property
     def targets(self):
